@@ -575,13 +575,63 @@ fn misc(which: u8) {
             let z = BytesMut::zeroed(3);
             assert!(z.len() == 3 && z[any_below(3)] == 0);
         }
-        _ => {
+        8 => {
             use core::fmt::Write;
             assume_ascii(&a);
             let s = unsafe { core::str::from_utf8_unchecked(&a) };
             let mut m = BytesMut::with_capacity(4);
             assert!(m.write_str(s).is_ok());
             agree(&m, &model);
+        }
+        9 => {
+            // mutable views (DerefMut / AsMut / BorrowMut) reach exactly the handle's own bytes: writing through them in one
+            // half of a split buffer is invisible through the other half
+            use core::borrow::BorrowMut;
+            let mut m = BytesMut::with_capacity(8);
+            m.extend_from_slice(&a);
+            let k = any_below(4);
+            let mut tail = m.split_off(k);
+            let v: u8 = kani::any();
+            {
+                let s: &mut [u8] = match kani::any::<u8>() % 3 {
+                    0 => &mut m[..],
+                    1 => m.as_mut(),
+                    _ => m.borrow_mut(),
+                };
+                assert!(s.len() == k);
+                if k > 0 {
+                    s[any_below(k)] = v;
+                }
+            }
+            agree(&tail[..], &M::of(&a[k..], 3 - k));
+            {
+                let s: &mut [u8] = tail.as_mut();
+                assert!(s.len() == 3 - k);
+                if k < 3 {
+                    s[any_below(3 - k)] = v;
+                }
+            }
+            assert!(m.len() == k);
+            if k > 0 {
+                let i = any_below(k);
+                assert!(m[i] == a[i] || m[i] == v);
+            }
+        }
+        _ => {
+            // fmt::Write that does not fit: Err and nothing appended (a BytesMut used as a fmt sink never grows)
+            use bytes::BufMut;
+            use core::fmt::Write;
+            assume_ascii(&a);
+            let s = unsafe { core::str::from_utf8_unchecked(&a) };
+            let mut m = BytesMut::with_capacity(4);
+            m.put_u8(1);
+            m.put_u8(2);
+            let room_before = m.remaining_mut();
+            let r = m.write_str(s);
+            // BytesMut::remaining_mut is usize::MAX - len: the write "fits" and may grow the buffer
+            assert!(room_before >= 3 && r.is_ok());
+            assert!(m.len() == 5 && m[0] == 1 && m[1] == 2);
+            agree(&m[2..], &model);
         }
     }
     end_reached!();
@@ -615,4 +665,8 @@ misc_case!(misc_copy_box, 6);
 misc_case!(misc_zeroed, 7);
 // @h props=C01,C02,C03 tier=quick flags=leak group=seq timeout=600 note=fmt::Write_for_BytesMut
 misc_case!(misc_write_str, 8);
+// @h props=C01,C02,C04 tier=quick flags=leak group=seq timeout=600 note=DerefMut/AsMut/BorrowMut_of_split_halves
+misc_case!(misc_mut_views, 9);
+// @h props=C01,C02,C11 tier=quick flags=leak group=seq timeout=600 note=fmt::Write_for_BytesMut_growing
+misc_case!(misc_write_str_grow, 10);
 
